@@ -206,6 +206,11 @@ def exec_environment(ctx, rid):
         ctx.check(rid, got == {wantt}, key(f, "mode|systemd=%s" % sysd), site(f, text="systemd=%s" % sysd),
                   "with systemd=%s, old master pid 1000, child pid 2000 and listeners on fds 7, 9, 12 the new master's environment is %s, required %s (original environment + the hand-off keys of this mode; "
                   "GUNICORN_PID is the old master's pid, LISTEN_PID the exec'ing process, fds in the spelling start() parses)" % (sysd, [dict(x) if isinstance(x, tuple) else x for x in got], want), "%s" % (want,))
+    # no listener of its own (reuse_port: the workers bind): the list is empty, the variable is '' -- the new master still boots
+    back0 = parsed_by_start("")
+    ctx.check(rid, back0 == {()}, key(f, "fd-round-trip-empty"), site(fs),
+              "with no listener to hand over (reuse_port) reexec writes GUNICORN_FD='', which start() parses into %s: the new master dies at start-up (int('')), leaving a stale '.2' pid file; "
+              "once the old master is stopped nobody serves" % sorted(map(str, back0 or ["an exception"])), "'' -> no inherited descriptors")
     ctx.table(rid + " environment handed to the new master", rows)
 
 
@@ -351,6 +356,29 @@ def r5(ctx):
         ctx.check("C14.R5", bool(pf) and all(var in n.text for n in pf) and all(n in g.reachable([s], follow_exc=False) for n in pf), key(f, "pidfile-uses-name"), site(f), "the Pidfile is not created from the suffixed name", "Pidfile(pidname)")
         # without an old master the configured name is used: a path around the suffix exists
         ctx.check("C14.R5", any(g.path(g.entry, [n], without_nodes=[s], follow_exc=False) is not None for n in pf), key(f, "plain-name-otherwise"), site(f), "the '.2' suffix is unconditional", "plain name for a first master")
+    # evaluated, for every function of the arbiter that makes a Pidfile: the name is the configured one for a master of its own,
+    # and carries '.2' for as long as this master has not been promoted (master_pid != 0) -- start() at boot, reload() on HUP
+    for fq in (ARB + ".start", ARB + ".reload"):
+        ff = ctx.fn(repo.func(fq))
+        mk = [c for c in calls_to(repo, ff, "gunicorn.pidfile.Pidfile")]
+        for mp_, want_sfx in ((0, ""), (4141, ".2")):
+            def at(e, ff=ff):
+                if isinstance(e, ast.Call) and isinstance(e.func, ast.Attribute) and e.func.attr in ("get", "pop") and rname(ff, e.func.value) == "os.environ" and e.args and const(e.args[0], NO) == "GUNICORN_PID":
+                    return "ENVPID"
+                if isinstance(e, ast.Subscript) and rname(ff, e.value) == "os.environ" and const(e.slice, NO) == "GUNICORN_PID":
+                    return "ENVPID"
+                if isinstance(e, ast.Compare) and len(e.ops) == 1 and isinstance(e.ops[0], (ast.In, ast.NotIn)) and const(e.left, NO) == "GUNICORN_PID":
+                    return "HASPID" if isinstance(e.ops[0], ast.In) else "NOPID"
+                return None
+            probes = {n.id: ("pidname", (lambda ex, env, c=c: ex.ev(c.args[0], env) if c.args else None)) for c in mk for n in nodes_with(ff, c)}
+            env = {"self.master_pid": mp_, "self.cfg.pidfile": "/run/g.pid", "ENVPID": str(mp_) if mp_ else None, "HASPID": bool(mp_), "NOPID": not mp_}
+            outs = Explorer(ff, atom_of=at, max_states=200000).run(ff.cfg.entry, env, probes=probes)
+            got = set(v for o in outs for nm, v in o.events if nm == "pidname")
+            ctx.check("C14.R5", got == {"/run/g.pid" + want_sfx}, key(ff, "pidfile-name|master_pid=%s" % mp_), site(ff, mk[0] if mk else None),
+                      "%s, run by a master %s, makes its pid file as %s, required %r%s" % (
+                          ff.short, "that an old master started and that is not promoted yet (master_pid=4141)" if mp_ else "of its own", sorted(map(str, got)), "/run/g.pid" + want_sfx,
+                          ": the configured name still belongs to the live old master -- create() finds it there ('Already running'), the exception ends the new master's main loop" if mp_ else ""),
+                      "Pidfile(%r)" % ("/run/g.pid" + want_sfx))
     mp = [s for s in g.stmts(ast.Assign) if any(tail(t) == "master_pid" for t in s.ast.targets)]
     ctx.check("C14.R5", bool(mp) and "GUNICORN_PID" in norm(mp[0].ast.value) and all(any(g.dominates(m, s, follow_exc=False) or True for m in mp) for s in pidsuf) and
               all(any(m in g.reachable([g.entry], follow_exc=False) and s in g.reachable([m], follow_exc=False) for m in mp) for s in pidsuf), key(f, "master-pid-from-env"), site(f),
